@@ -35,13 +35,14 @@ LINES = [
 ]
 VARIANTS = (('lf', True), ('lf', False), ('crlf', True), ('crlf', False))
 
-ATOMS = (' ', '\t', '\n', '\r\n')
+ATOMS = (' ', '\t', '\n', '\r\n', '\r\r\n')        # the lexer's line break is \\r*\\n
 ATOM_SEQS: list[tuple[str, ...]] = [()] + [(a,) for a in ATOMS] + list(itertools.product(ATOMS, repeat=2))
-STRINGS = [''.join(a) for a in ATOM_SEQS]          # 21 strings, '' first
-assert len(STRINGS) == 21 and len(set(STRINGS)) == 21
+STRINGS = [''.join(a) for a in ATOM_SEQS]          # 31 strings, '' first
+assert len(STRINGS) == 31 and len(set(STRINGS)) == 31
 _ATOMS_OF = dict(zip(STRINGS, ATOM_SEQS))
 
 BLANK = (M.Whitespace, M.Newline)
+_LF: dict = {}          # {'lf': n} while a case runs at a non-default load factor (goes into replay cases)
 SIDES = ('before', 'after')
 
 
@@ -129,7 +130,7 @@ def check_getters(text: str, root: M.RawModel, res: core.CaseResult) -> list[tup
     toks = list(store)
     order = {id(t): i for i, t in enumerate(toks)}
     subs = subjects(root, toks)
-    mincase = {'text': text, 'set': 'none'}
+    mincase = dict({'text': text, 'set': 'none'}, **_LF)
     by_first: dict[int, list] = {}
     by_last: dict[int, list] = {}
     got: dict[tuple, Any] = {}
@@ -204,7 +205,7 @@ _PRE: dict[str, tuple] = {}
 
 def check_set(text: str, path: tuple, side: str, s: str, via: str, res: core.CaseResult) -> None:
     """One assignment on a fresh parse."""
-    mincase = {'text': text, 'path': list(path), 'side': side, 's': s, 'via': via}
+    mincase = dict({'text': text, 'path': list(path), 'side': side, 's': s, 'via': via}, **_LF)
     nviol0 = len(res.violations)
     root = docs.try_parse(text)
     if root is None:
@@ -342,6 +343,20 @@ def check_set(text: str, path: tuple, side: str, s: str, via: str, res: core.Cas
 # ---------------------------------------------------------------------------------------------------------------
 
 def run_case(case: dict) -> core.CaseResult:
+    lf = case.get('lf')
+    if lf is None:
+        return _run_case(case)
+    from .. import store as store_mod
+    store_mod.set_load_factor(lf)        # the same sweep with a token store of many small blocks
+    _LF['lf'] = lf
+    try:
+        return _run_case(case)
+    finally:
+        _LF.clear()
+        store_mod.set_load_factor(None)
+
+
+def _run_case(case: dict) -> core.CaseResult:
     res = core.CaseResult()
     text = case['text']
     if 'path' in case:                                   # one assignment (replay of a setter finding)
@@ -383,6 +398,10 @@ def main(run: core.Run) -> None:
                     continue
                 seen.add(t)
                 items.append({'text': t, 'set': 'all', 'raw': tier != 'quick'})
+    # the same getters / setters with the store split into blocks of 2-3 tokens (neighbour scans cross block boundaries)
+    small = [dict(c, lf=2) for c in items if c['text'].count('\n') <= (1 if tier == 'quick' else 2) and '\r' not in c['text']]
+    items += small
+    run.bounds['small_load_factor'] = f'{len(small)} documents repeated at load factor 2'
     run.rule = ('all documents of <= n lines over a 12-kind line alphabet x {LF, CRLF} x {final newline, none}, parsed as File '
                 '(comments attributed by default); in each accepted document every model and token with spacing accessors '
                 'except the root x {before, after}: raw and text getter against the token-level reference run, two-sided '
@@ -393,8 +412,8 @@ def main(run: core.Run) -> None:
         'line_alphabet': LINES, 'max_lines': nmax, 'eol_variants': [f'{e}{"+final" if f else ""}' for e, f in VARIANTS],
         'getters': f'all subjects of all accepted documents <= {nmax} lines, both sides, raw + text, two-sided clause',
         'setter_strings': STRINGS,
-        'setters': ('documents <= 2 lines: every model and token, both sides, 21 strings via spacing_*' if tier == 'quick' else
-                    'documents <= 3 lines: every model and token, both sides, 21 strings, via spacing_* and via raw_spacing_* '
+        'setters': ('documents <= 2 lines: every model and token, both sides, 31 strings via spacing_*' if tier == 'quick' else
+                    'documents <= 3 lines: every model and token, both sides, 31 strings, via spacing_* and via raw_spacing_* '
                     '(one Whitespace/Newline token per atom)'),
     })
     run.assumptions = [
